@@ -1,65 +1,1070 @@
-//! probe
-use radicle::identity::doc::{Doc, RawDoc, Visibility};
-fn main() {
-    let did = "did:key:z6MksFqXN3Yhqk8pTJdUGLwATkRfQvwZXPqR2qMEhbS9wzpT";
-    let did2 = "did:key:z6MktaNvN1KVFMkSRAiN4qK5yvX1zuEEaseeX5sffhzPZRZW";
-    let p = r#"{"xyz.radicle.project":{"name":"a","description":"","defaultBranch":"m"}}"#;
-    let tests: Vec<String> = vec![
-        format!(r#"{{"payload":{p},"delegates":["{did}"],"threshold":1}}"#),
-        format!(r#"[1,{p},["{did}"],1]"#),
-        format!(r#"[1,{p},["{did}"],1,{{"type":"public"}}]"#),
-        format!(r#"[1,{p},["{did}"]]"#),
-        format!(r#"[{p},["{did}"],1]"#),
-        format!(r#"{{"payload":{p},"delegates":["{did}"],"threshold":1,"threshold":1}}"#),
-        format!(r#"{{"payload":{p},"delegates":["{did}"],"threshold":1,"foo":1,"foo":2}}"#),
-        format!(r#"{{"payload":{p},"delegates":["{did}"],"threshold":1.0}}"#),
-        format!(r#"{{"payload":{p},"delegates":["{did}"],"threshold":1,"version":0}}"#),
-        format!(r#"{{"payload":{p},"delegates":["{did}"],"threshold":1,"version":2}}"#),
-        format!(r#"{{"payload":{p},"delegates":["{did}"],"threshold":1,"version":1}}"#),
-        format!(r#"{{"payload":{p},"delegates":["{did}"],"threshold":1,"version":null}}"#),
-        format!(r#"{{"payload":{p},"delegates":["{did}"],"threshold":1,"visibility":null}}"#),
-        format!(r#"{{"payload":{p},"delegates":["{did}"],"threshold":1,"visibility":"public"}}"#),
-        format!(r#"{{"payload":{p},"delegates":["{did}"],"threshold":1,"visibility":{{"type":"public","allow":["{did}"]}}}}"#),
-        format!(r#"{{"payload":{p},"delegates":["{did}"],"threshold":1,"visibility":{{"type":"public","x":1}}}}"#),
-        format!(r#"{{"payload":{p},"delegates":["{did}"],"threshold":1,"visibility":{{"type":"private","x":1}}}}"#),
-        format!(r#"{{"payload":{p},"delegates":["{did}"],"threshold":1,"visibility":{{"type":"private","allow":["{did}","{did}","{did2}"]}}}}"#),
-        format!(r#"{{"payload":{p},"delegates":["{did}"],"threshold":1,"visibility":{{"type":"private","allow":[],"allow":[]}}}}"#),
-        format!(r#"{{"payload":{p},"delegates":["{did}"],"threshold":1,"visibility":{{"type":"private","type":"public"}}}}"#),
-        format!(r#"{{"payload":{p},"delegates":["{did}"],"threshold":1,"visibility":{{"allow":[]}}}}"#),
-        format!(r#"{{"payload":{p},"delegates":["{did}"],"threshold":1,"visibility":{{"allow":[],"type":"private"}}}}"#),
-        format!(r#"{{"payload":{p},"delegates":["{did}"],"threshold":1,"visibility":["private"]}}"#),
-        format!(r#"{{"payload":{p},"delegates":["{did}"],"threshold":1,"visibility":["private",["{did}"]]}}"#),
-        format!(r#"{{"payload":{p},"delegates":["{did}"],"threshold":1,"visibility":["public"]}}"#),
-        format!(r#"{{"payload":{p},"delegates":["{did}"],"threshold":1,"visibility":{{"type":"Private"}}}}"#),
-        format!(r#"{{"payload":{{}},"delegates":["{did}"],"threshold":1}}"#),
-        format!(r#"{{"payload":[],"delegates":["{did}"],"threshold":1}}"#),
-        format!(r#"{{"payload":{{"a":1,"a":2}},"delegates":["{did}"],"threshold":1}}"#),
-        format!(r#"{{"payload":{{"a.b":1,"a.b":2.5}},"delegates":["{did}"],"threshold":1}}"#),
-        format!(r#"{{"payload":{{"A.b-c.d":1}},"delegates":["{did}"],"threshold":1}}"#),
-        format!(r#"{{"payload":{{"a.b":{{"name":"é"}}}},"delegates":["{did}"],"threshold":1}}"#),
-        format!(r#"{{"payload":{{"a.b":{{"é":1,"é":2}}}},"delegates":["{did}"],"threshold":1}}"#),
-        format!(r#"{{"payload":{p},"delegates":"{did}","threshold":1}}"#),
-        format!(r#"{{"payload":{p},"delegates":[],"threshold":0}}"#),
-        format!(r#"{{"payload":{p},"delegates":["{did}"],"threshold":18446744073709551615}}"#),
-        format!(r#"{{"payload":{p},"delegates":["{did}"],"threshold":18446744073709551616}}"#),
-        format!(r#"{{"payload":{p},"delegates":["{did}"],"threshold":-1}}"#),
-        format!(r#"{{"payload":{p},"delegates":["{did}"],"threshold":1,"version":4294967296}}"#),
-        format!(r#" {{"payload":{p},"delegates":["{did}"],"threshold":1}} x"#),
-    ];
-    for t in tests {
-        let a = serde_json::from_str::<Doc>(&t);
-        let b = RawDoc::from_json(t.as_bytes()).and_then(|r| r.verified());
-        println!("{t}\n   Doc: {:?}\n   Raw: {:?}", a.as_ref().map(|_| "ok").map_err(|e| e.to_string()), b.as_ref().map(|_| "ok").map_err(|e| e.to_string()));
-        if let Ok(d) = b {
-            match d.encode() {
-                Ok((oid, bytes)) => {
-                    println!("   enc: {oid} {}", String::from_utf8_lossy(&bytes));
-                    let d2 = RawDoc::from_json(&bytes).and_then(|r| r.verified());
-                    println!("   rt-equal: {:?}", d2.map(|d2| d2 == d).map_err(|e| e.to_string()));
+//! C19 — identity documents: validity of everything accepted, encode/decode round trip, repository id.
+//!
+//! Case input (the same tokens the Lean driver reads):
+//!   `<did table> <nfc table> json <tree>`                               a JSON document
+//!   `<did table> <nfc table> raw <delegates> <threshold> <P|V<allow>> <payload tree>`   a `RawDoc` built through the API
+//! * did table `idx:hex,…|-`: the DID strings of the case (`Did::encode`), numbered so that index order is
+//!   the `Ord` of `Did`; checked here with the real `Did::decode`.
+//! * nfc table `hex>hex,…|-`: NFC of every string fragment of the tree that is not already normalised;
+//!   re-computed here with the `unicode-normalization` crate and compared (`bad-case` if it differs).
+//! * tree: see `lean/HeartwoodModel/Model/JsonWire.lean`. The harness prints it as JSON text and gives the
+//!   text to the real code: `RawDoc::from_json(..).verified()` (the body of `Doc::from_blob`),
+//!   `serde_json::from_slice::<Doc>` and `Doc::from_blob` on a real git blob.
+//!
+//! Output: `rej` or `ok v=<version> t=<threshold> d=<delegate idx,…> vis=<pub|priv:idx,…> enc=<hex|err> rt=<1|0|E|x>`.
+//! Oracle (the property statement on what the real code did): see `check_doc`.
+
+use std::collections::{BTreeMap, BTreeSet, HashMap};
+use std::sync::atomic::{AtomicU64, Ordering};
+
+use radicle::cob::identity::Identity;
+use radicle::crypto::test::signer::MockSigner;
+use radicle::git::raw as git2;
+use radicle::identity::doc::{Doc, DocError, Payload, PayloadId, RawDoc, Visibility};
+use radicle::identity::project::Project;
+use radicle::identity::{Did, RepoId};
+use radicle::node::device::Device;
+use radicle::storage::git::{Repository, Storage};
+use radicle::storage::ReadStorage as _;
+use radicle::test::fixtures;
+use unicode_normalization::UnicodeNormalization;
+use verif_common::*;
+
+// ---------------------------------------------------------------------------------------------
+// JSON trees (wire syntax)
+
+#[derive(Clone, Debug, PartialEq)]
+enum J {
+    Null,
+    Bool(bool),
+    Int(i128),
+    Float(u32),
+    Str(String),
+    Arr(Vec<J>),
+    Obj(Vec<(String, J)>),
+}
+
+const FLOATS: &[&str] = &["1.5", "-0.25", "1e2", "2.5E-3", "1.0", "18446744073709551616", "-9223372036854775809", "0.0", "-0.0", "-0"];
+
+struct P<'a> {
+    s: &'a [u8],
+    i: usize,
+    tbl: &'a BTreeMap<u64, String>,
+}
+
+impl<'a> P<'a> {
+    fn peek(&self) -> Option<u8> {
+        self.s.get(self.i).copied()
+    }
+    fn eat(&mut self, c: u8) -> bool {
+        if self.peek() == Some(c) {
+            self.i += 1;
+            true
+        } else {
+            false
+        }
+    }
+    fn nat(&mut self) -> Option<u128> {
+        let st = self.i;
+        let mut n: u128 = 0;
+        while let Some(c) = self.peek() {
+            if c.is_ascii_digit() {
+                n = n.checked_mul(10)?.checked_add((c - b'0') as u128)?;
+                self.i += 1;
+            } else {
+                break;
+            }
+        }
+        if self.i == st {
+            None
+        } else {
+            Some(n)
+        }
+    }
+    fn hex(&mut self) -> Option<String> {
+        let mut out = vec![];
+        let hv = |c: u8| match c {
+            b'0'..=b'9' => Some(c - b'0'),
+            b'a'..=b'f' => Some(c - b'a' + 10),
+            _ => None,
+        };
+        while self.i + 1 < self.s.len() {
+            match (hv(self.s[self.i]), hv(self.s[self.i + 1])) {
+                (Some(a), Some(b)) => {
+                    out.push(a * 16 + b);
+                    self.i += 2;
                 }
-                Err(e) => println!("   enc-err: {e}"),
+                _ => break,
+            }
+        }
+        String::from_utf8(out).ok()
+    }
+    fn string(&mut self) -> Option<String> {
+        if self.eat(b'K') {
+            let n = self.nat()?;
+            self.tbl.get(&(n as u64)).cloned()
+        } else {
+            self.hex()
+        }
+    }
+    fn value(&mut self, depth: usize) -> Option<J> {
+        if depth > 64 {
+            return None;
+        }
+        let c = self.peek()?;
+        self.i += 1;
+        match c {
+            b'N' => Some(J::Null),
+            b'T' => Some(J::Bool(true)),
+            b'F' => Some(J::Bool(false)),
+            b'D' => Some(J::Float(self.nat().unwrap_or(0) as u32)),
+            b'I' => {
+                let neg = self.eat(b'-');
+                let n = self.nat()? as i128;
+                let v = if neg { -n } else { n };
+                if v < i64::MIN as i128 || v > u64::MAX as i128 {
+                    return None;
+                }
+                Some(J::Int(v))
+            }
+            b'S' => Some(J::Str(self.hex()?)),
+            b'K' => {
+                self.i -= 1;
+                Some(J::Str(self.string()?))
+            }
+            b'A' => {
+                if !self.eat(b'[') {
+                    return None;
+                }
+                let mut xs = vec![];
+                if self.eat(b']') {
+                    return Some(J::Arr(xs));
+                }
+                loop {
+                    xs.push(self.value(depth + 1)?);
+                    if self.eat(b',') {
+                        continue;
+                    }
+                    if self.eat(b']') {
+                        return Some(J::Arr(xs));
+                    }
+                    return None;
+                }
+            }
+            b'O' => {
+                if !self.eat(b'{') {
+                    return None;
+                }
+                let mut kvs = vec![];
+                if self.eat(b'}') {
+                    return Some(J::Obj(kvs));
+                }
+                loop {
+                    let k = self.string()?;
+                    if !self.eat(b':') {
+                        return None;
+                    }
+                    kvs.push((k, self.value(depth + 1)?));
+                    if self.eat(b',') {
+                        continue;
+                    }
+                    if self.eat(b'}') {
+                        return Some(J::Obj(kvs));
+                    }
+                    return None;
+                }
+            }
+            _ => None,
+        }
+    }
+}
+
+fn parse_tree(s: &str, tbl: &BTreeMap<u64, String>) -> Option<J> {
+    let mut p = P { s: s.as_bytes(), i: 0, tbl };
+    let v = p.value(0)?;
+    if p.i == s.len() {
+        Some(v)
+    } else {
+        None
+    }
+}
+
+fn hexs(s: &str) -> String {
+    let mut o = String::new();
+    for b in s.as_bytes() {
+        o.push_str(&format!("{:02x}", b));
+    }
+    o
+}
+
+/// Wire form of a tree; strings found in `rev` (DID strings) are written as `K<idx>`.
+fn wire(j: &J, rev: &HashMap<String, u64>, out: &mut String) {
+    let st = |s: &str, val: bool, out: &mut String| {
+        if let Some(i) = rev.get(s) {
+            out.push_str(&format!("K{i}"));
+        } else {
+            if val {
+                out.push('S');
+            }
+            out.push_str(&hexs(s));
+        }
+    };
+    match j {
+        J::Null => out.push('N'),
+        J::Bool(true) => out.push('T'),
+        J::Bool(false) => out.push('F'),
+        J::Int(i) => out.push_str(&format!("I{i}")),
+        J::Float(k) => out.push_str(&format!("D{k}")),
+        J::Str(s) => st(s, true, out),
+        J::Arr(xs) => {
+            out.push_str("A[");
+            for (i, x) in xs.iter().enumerate() {
+                if i > 0 {
+                    out.push(',');
+                }
+                wire(x, rev, out);
+            }
+            out.push(']');
+        }
+        J::Obj(kvs) => {
+            out.push_str("O{");
+            for (i, (k, v)) in kvs.iter().enumerate() {
+                if i > 0 {
+                    out.push(',');
+                }
+                st(k, false, out);
+                out.push(':');
+                wire(v, rev, out);
+            }
+            out.push('}');
+        }
+    }
+}
+
+fn json_str(s: &str, out: &mut String) {
+    out.push('"');
+    for c in s.chars() {
+        match c {
+            '"' => out.push_str("\\\""),
+            '\\' => out.push_str("\\\\"),
+            c if (c as u32) < 0x20 => out.push_str(&format!("\\u{:04x}", c as u32)),
+            c => out.push(c),
+        }
+    }
+    out.push('"');
+}
+
+/// JSON text of a tree (what the real code is given).
+fn json_text(j: &J, out: &mut String) {
+    match j {
+        J::Null => out.push_str("null"),
+        J::Bool(b) => out.push_str(if *b { "true" } else { "false" }),
+        J::Int(i) => out.push_str(&i.to_string()),
+        J::Float(k) => out.push_str(FLOATS[*k as usize % FLOATS.len()]),
+        J::Str(s) => json_str(s, out),
+        J::Arr(xs) => {
+            out.push('[');
+            for (i, x) in xs.iter().enumerate() {
+                if i > 0 {
+                    out.push(',');
+                }
+                json_text(x, out);
+            }
+            out.push(']');
+        }
+        J::Obj(kvs) => {
+            out.push('{');
+            for (i, (k, v)) in kvs.iter().enumerate() {
+                if i > 0 {
+                    out.push_str(", ");
+                }
+                json_str(k, out);
+                out.push_str(": ");
+                json_text(v, out);
+            }
+            out.push('}');
+        }
+    }
+}
+
+fn strings_of<'a>(j: &'a J, out: &mut Vec<&'a str>) {
+    match j {
+        J::Str(s) => out.push(s),
+        J::Arr(xs) => xs.iter().for_each(|x| strings_of(x, out)),
+        J::Obj(kvs) => kvs.iter().for_each(|(k, v)| {
+            out.push(k);
+            strings_of(v, out)
+        }),
+        _ => {}
+    }
+}
+
+fn needs_esc(b: u8) -> bool {
+    b < 0x20 || b == b'"' || b == b'\\'
+}
+
+/// The fragments `format_escaped_str_contents` hands to `write_string_fragment`.
+fn fragments(s: &str) -> Vec<&str> {
+    let mut out = vec![];
+    let mut start = 0;
+    for (i, b) in s.bytes().enumerate() {
+        if needs_esc(b) {
+            if start < i {
+                out.push(&s[start..i]);
+            }
+            start = i + 1;
+        }
+    }
+    if start < s.len() {
+        out.push(&s[start..]);
+    }
+    out
+}
+
+fn nfc_table(j: &J) -> BTreeMap<String, String> {
+    let mut ss = vec![];
+    strings_of(j, &mut ss);
+    let mut t = BTreeMap::new();
+    for s in ss {
+        for f in fragments(s) {
+            let n: String = f.nfc().collect();
+            if n != f {
+                t.insert(f.to_string(), n);
             }
         }
     }
-    let _ = Visibility::Public;
+    t
+}
+
+fn nfc_unstable(v: &serde_json::Value) -> bool {
+    let st = |s: &str| fragments(s).iter().any(|f| f.nfc().collect::<String>() != **f);
+    match v {
+        serde_json::Value::String(s) => st(s),
+        serde_json::Value::Array(xs) => xs.iter().any(nfc_unstable),
+        serde_json::Value::Object(m) => m.iter().any(|(k, v)| st(k) || nfc_unstable(v)),
+        _ => false,
+    }
+}
+
+// ---------------------------------------------------------------------------------------------
+// Keys
+
+const POOL: usize = 300;
+
+struct Pool {
+    signers: Vec<Device<MockSigner>>, // sorted by Did
+    dids: Vec<Did>,
+}
+
+fn pool() -> &'static Pool {
+    static P: std::sync::OnceLock<Pool> = std::sync::OnceLock::new();
+    P.get_or_init(|| {
+        let mut v: Vec<(Did, Device<MockSigner>)> = (0..POOL)
+            .map(|i| {
+                let mut seed = [0xa3u8; 32];
+                seed[..8].copy_from_slice(&(i as u64).to_le_bytes());
+                let s = Device::mock_from_seed(seed);
+                (Did::from(*s.public_key()), s)
+            })
+            .collect();
+        v.sort_by(|a, b| a.0.cmp(&b.0));
+        Pool { dids: v.iter().map(|x| x.0).collect(), signers: v.into_iter().map(|x| x.1).collect() }
+    })
+}
+
+// ---------------------------------------------------------------------------------------------
+// Running one case
+
+static INIT_EVERY: AtomicU64 = AtomicU64::new(20);
+
+fn fnv(s: &str) -> u64 {
+    let mut h = 0xcbf29ce484222325u64;
+    for b in s.bytes() {
+        h ^= b as u64;
+        h = h.wrapping_mul(0x100000001b3);
+    }
+    h
+}
+
+fn blob_hash(bytes: &[u8]) -> String {
+    let mut h = sha1_smol::Sha1::new();
+    h.update(format!("blob {}\0", bytes.len()).as_bytes());
+    h.update(bytes);
+    h.digest().to_string()
+}
+
+thread_local! {
+    static SCRATCH: (tempfile::TempDir, git2::Repository) = {
+        let d = tempfile::tempdir().expect("tempdir");
+        let r = git2::Repository::init_bare(d.path()).expect("scratch repo");
+        (d, r)
+    };
+}
+
+fn err_class(e: &DocError) -> &'static str {
+    match e {
+        DocError::Json(_) => "json",
+        DocError::Delegates(_) => "delegates",
+        DocError::Threshold(_) => "threshold",
+        _ => "other",
+    }
+}
+
+struct Case {
+    dids: BTreeMap<u64, String>,
+    rev: HashMap<Did, u64>,
+}
+
+fn nat_list(s: &str) -> Option<Vec<u64>> {
+    if s == "-" || s.is_empty() {
+        return Some(vec![]);
+    }
+    s.split(',').map(|x| x.parse().ok()).collect()
+}
+
+fn run_case(input: &str) -> Outcome {
+    match catch(|| run_case_inner(input)) {
+        Ok(Some(o)) => o,
+        Ok(None) => Outcome::new("bad-case").trivial().tag("bad-case"),
+        Err(msg) => Outcome::new("panic").violation("panic", format!("the real code panicked: {msg}")).tag("panic"),
+    }
+}
+
+fn run_case_inner(input: &str) -> Option<Outcome> {
+    let toks: Vec<&str> = input.split(' ').collect();
+    if toks.len() < 4 {
+        return None;
+    }
+    // did table
+    let mut dids = BTreeMap::new();
+    let mut rev = HashMap::new();
+    if toks[0] != "-" {
+        let mut prev: Option<Did> = None;
+        let mut entries: Vec<(u64, String)> = vec![];
+        for e in toks[0].split(',') {
+            let (i, h) = e.split_once(':')?;
+            entries.push((i.parse().ok()?, String::from_utf8(unhex(h)?).ok()?));
+        }
+        entries.sort();
+        for (i, s) in entries {
+            let d = Did::decode(&s).ok()?; // showDid graph must be real
+            if d.to_string() != s {
+                return None;
+            }
+            if let Some(p) = prev {
+                if p >= d {
+                    return None; // index order must be the Ord of Did
+                }
+            }
+            prev = Some(d);
+            if dids.insert(i, s).is_some() {
+                return None;
+            }
+            rev.insert(d, i);
+        }
+    }
+    let case = Case { dids, rev };
+    // tree
+    let (tree_tok, kind) = match toks[2] {
+        "json" if toks.len() == 4 => (toks[3], 0),
+        "raw" if toks.len() == 7 => (toks[6], 1),
+        _ => return None,
+    };
+    let tree = parse_tree(tree_tok, &case.dids)?;
+    // nfc table must be exactly NFC on the non-normalised fragments of the tree
+    let mut given = BTreeMap::new();
+    if toks[1] != "-" {
+        for e in toks[1].split(',') {
+            let (a, b) = e.split_once('>')?;
+            given.insert(String::from_utf8(unhex(a)?).ok()?, String::from_utf8(unhex(b)?).ok()?);
+        }
+    }
+    if given != nfc_table(&tree) {
+        return None;
+    }
+    // every string of the tree that is not in the did table must not be a DID (parseDid graph is sparse)
+    {
+        let mut ss = vec![];
+        strings_of(&tree, &mut ss);
+        let known: BTreeSet<&str> = case.dids.values().map(|s| s.as_str()).collect();
+        for s in ss {
+            if !known.contains(s) && Did::decode(s).is_ok() {
+                return None;
+            }
+        }
+    }
+    let mut text = String::new();
+    json_text(&tree, &mut text);
+    let mut viol: Vec<(String, String)> = vec![];
+    let mut tags: Vec<String> = vec![];
+    let res: Result<Doc, DocError> = if kind == 0 {
+        tags.push("kind:json".into());
+        let a = RawDoc::from_json(text.as_bytes()).and_then(|r| r.verified());
+        let b = serde_json::from_slice::<Doc>(text.as_bytes());
+        let c = SCRATCH.with(|(_, repo)| {
+            let oid = repo.blob(text.as_bytes()).expect("blob");
+            let blob = repo.find_blob(oid).expect("find blob");
+            Doc::from_blob(&blob)
+        });
+        let same = match (&a, &b, &c) {
+            (Ok(a), Ok(b), Ok(c)) => a == b && a == c,
+            (Err(_), Err(_), Err(_)) => true,
+            _ => false,
+        };
+        if !same {
+            viol.push((
+                "deserialize-paths-disagree".into(),
+                format!(
+                    "RawDoc::from_json+verified: {:?}, Doc::deserialize: {:?}, Doc::from_blob: {:?}",
+                    a.as_ref().map(|_| "ok").map_err(|e| e.to_string()),
+                    b.as_ref().map(|_| "ok").map_err(|e| e.to_string()),
+                    c.as_ref().map(|_| "ok").map_err(|e| e.to_string())
+                ),
+            ));
+        }
+        // report the Doc::deserialize path when the paths disagree on acceptance, so that an accepted
+        // document is always checked by the oracle
+        match (a, b) {
+            (Ok(a), _) => Ok(a),
+            (Err(_), Ok(b)) => Ok(b),
+            (Err(e), Err(_)) => Err(e),
+        }
+    } else {
+        tags.push("kind:raw".into());
+        let dels = nat_list(toks[3])?;
+        let thr: usize = toks[4].parse().ok()?;
+        let did_of = |i: &u64| -> Option<Did> { Did::decode(case.dids.get(i)?).ok() };
+        let vis = if toks[5] == "P" {
+            Visibility::Public
+        } else if let Some(a) = toks[5].strip_prefix('V') {
+            Visibility::private(nat_list(a)?.iter().map(did_of).collect::<Option<Vec<_>>>()?)
+        } else {
+            return None;
+        };
+        let delegates = dels.iter().map(did_of).collect::<Option<Vec<_>>>()?;
+        if !matches!(tree, J::Obj(_)) {
+            return None;
+        }
+        let payload: BTreeMap<PayloadId, Payload> = serde_json::from_str(&text).ok()?;
+        let project = Project::new(
+            "placeholder".try_into().ok()?,
+            String::new(),
+            radicle::git::RefString::try_from("master").ok()?,
+        )
+        .ok()?;
+        let mut raw = RawDoc::new(project, delegates, thr, vis);
+        raw.payload = payload;
+        raw.verified()
+    };
+    if std::env::var("C19_DEBUG").is_ok() {
+        eprintln!("TEXT {text}\nRES {:?}", res.as_ref().map(|_| "ok").map_err(|e| e.to_string()));
+    }
+    // The property on the *input* document: what is accepted must carry the version and threshold that
+    // the document states (an unsupported version / out-of-range threshold must not be coerced).
+    if let (0, Ok(d)) = (kind, &res) {
+        let find = |name: &str, pos: usize| -> Option<&J> {
+            match &tree {
+                J::Obj(kvs) => {
+                    let mut it = kvs.iter().filter(|(k, _)| k == name);
+                    let first = it.next();
+                    if it.next().is_some() { None } else { first.map(|(_, v)| v) }
+                }
+                J::Arr(xs) => xs.get(pos),
+                _ => None,
+            }
+        };
+        if let Some(v) = find("version", 0) {
+            if *v != J::Int(1) {
+                viol.push(("accepted-field-mismatch".into(), "a document stating a version other than 1 was accepted".into()));
+            }
+        }
+        match find("threshold", 3) {
+            Some(J::Int(t)) if *t == d.threshold() as i128 => {}
+            _ => viol.push(("accepted-field-mismatch".into(), format!("accepted threshold {} is not the threshold the document states", d.threshold()))),
+        }
+    }
+    let out = match res {
+        Err(e) => {
+            tags.push(format!("rej:{}", err_class(&e)));
+            "rej".to_string()
+        }
+        Ok(d) => check_doc(input, &case, &d, &mut viol, &mut tags),
+    };
+    let nontrivial = out != "rej" || tags.iter().any(|t| t == "rej:delegates" || t == "rej:threshold");
+    let mut o = Outcome::new(out);
+    o.violations = viol;
+    o.nontrivial = nontrivial;
+    tags.sort();
+    tags.dedup();
+    o.tags = tags;
+    Some(o)
+}
+
+/// The property statement evaluated on an accepted document, with the real accessors.
+fn check_doc(input: &str, case: &Case, d: &Doc, viol: &mut Vec<(String, String)>, tags: &mut Vec<String>) -> String {
+    let dels: Vec<Did> = d.delegates().iter().copied().collect();
+    let n = dels.len();
+    let distinct: BTreeSet<&Did> = dels.iter().collect();
+    let t = d.threshold();
+    let v: u32 = (*d.version()).into();
+    if n < 1 || n > 255 {
+        viol.push(("invalid-doc-accepted".into(), format!("accepted document has {n} delegates")));
+    }
+    if distinct.len() != n {
+        viol.push(("invalid-doc-accepted".into(), format!("accepted document has duplicate delegates ({} distinct of {n})", distinct.len())));
+    }
+    if t < 1 || t > n {
+        viol.push(("invalid-doc-accepted".into(), format!("accepted document has threshold {t} with {n} delegates")));
+    }
+    if v != 1 {
+        viol.push(("invalid-doc-accepted".into(), format!("accepted document has unsupported version {v}")));
+    }
+    tags.push(match n {
+        1 => "ok:delegates=1".into(),
+        2..=9 => "ok:delegates=2..9".into(),
+        10..=253 => "ok:delegates=10..253".into(),
+        k => format!("ok:delegates={k}"),
+    });
+    tags.push(if t == n { "ok:threshold=n" } else if t == 1 { "ok:threshold=1" } else { "ok:threshold=mid" }.into());
+    let idx = |x: &Did| case.rev.get(x).map(|i| i.to_string()).unwrap_or_else(|| "?".into());
+    let dl = dels.iter().map(idx).collect::<Vec<_>>().join(",");
+    let vis = match d.visibility() {
+        Visibility::Public => "pub".to_string(),
+        Visibility::Private { allow } => {
+            tags.push("ok:private".into());
+            let a = allow.iter().map(idx).collect::<Vec<_>>().join(",");
+            format!("priv:{}", if a.is_empty() { "-".into() } else { a })
+        }
+    };
+    let (enc, rt) = match d.encode() {
+        Err(_) => {
+            tags.push("enc:err-float".into());
+            ("err".to_string(), "x")
+        }
+        Ok((oid, bytes)) => {
+            let indep = blob_hash(&bytes);
+            if oid.to_string() != indep {
+                viol.push(("rid-not-blob-hash".into(), format!("Doc::encode returned oid {oid} but the git blob hash of the bytes is {indep}")));
+            }
+            // the bytes must be the canonical JSON (C18's formatter) of the serialised document
+            match serde_json::to_value(d).ok().and_then(|v| radicle::cob::store::encoding::encode(&v).ok()) {
+                Some(buf) if buf == bytes => {}
+                _ => viol.push(("encode-not-canonical".into(), "Doc::encode does not return the canonical JSON encoding of the document".into())),
+            }
+            let rt = match RawDoc::from_json(&bytes).and_then(|r| r.verified()) {
+                Err(e) => {
+                    viol.push(("roundtrip-decode-failed".into(), format!("the canonical encoding of an accepted document is rejected: {e}")));
+                    "E"
+                }
+                Ok(d2) => {
+                    let core_same = d2.delegates() == d.delegates()
+                        && d2.threshold() == d.threshold()
+                        && d2.version() == d.version()
+                        && d2.visibility() == d.visibility();
+                    if !core_same {
+                        viol.push(("roundtrip-core-fields-changed".into(), "delegates/threshold/version/visibility differ after encode+decode".into()));
+                    }
+                    match d2.encode() {
+                        Ok((_, b2)) if b2 == bytes => {}
+                        _ => viol.push(("canonical-not-fixed-point".into(), "re-encoding the decoded canonical document gives different bytes".into())),
+                    }
+                    if &d2 == d {
+                        tags.push("rt:equal".into());
+                        "1"
+                    } else {
+                        let unstable = d.payload().iter().any(|(k, p)| {
+                            fragments(&k.to_string()).iter().any(|f| f.nfc().collect::<String>() != **f) || nfc_unstable(p)
+                        });
+                        if unstable {
+                            tags.push("rt:differs-nfc".into());
+                            viol.push(("roundtrip-payload-not-nfc".into(), "encode+decode yields a different document: a payload string is not NFC-normalised".into()));
+                        } else {
+                            viol.push(("roundtrip-not-equal".into(), "encode+decode yields a different document although every payload string is NFC-normalised".into()));
+                        }
+                        "0"
+                    }
+                }
+            };
+            // Repository::init / Identity::from_root on a deterministic subset
+            let every = INIT_EVERY.load(Ordering::Relaxed);
+            if every > 0 && fnv(input) % every == 0 {
+                init_check(d, &bytes, &indep, viol, tags);
+            }
+            (hex(&bytes), rt)
+        }
+    };
+    format!("ok v={v} t={t} d={dl} vis={vis} enc={enc} rt={rt}")
+}
+
+/// `Repository::init` must name the repository after the blob hash of the canonical bytes, the stored
+/// identity must load (`Identity::from_root`), and the same root under a different id must be refused.
+fn init_check(d: &Doc, bytes: &[u8], indep: &str, viol: &mut Vec<(String, String)>, tags: &mut Vec<String>) {
+    let p = pool();
+    let first = *d.delegates().first();
+    let Some(k) = p.dids.iter().position(|x| *x == first) else { return };
+    let signer = &p.signers[k];
+    let Ok(tmp) = tempfile::tempdir() else { return };
+    let Ok(storage) = Storage::open(tmp.path().join("storage"), fixtures::user()) else { return };
+    tags.push("init:run".into());
+    match Repository::init(d, &storage, signer) {
+        Err(e) => viol.push(("init-failed".into(), format!("Repository::init failed on a valid document: {e}"))),
+        Ok((repo, commit)) => {
+            let expect = RepoId::from(git2::Oid::from_str(indep).expect("oid"));
+            if repo.id != expect {
+                viol.push(("rid-not-blob-hash".into(), format!("Repository::init named the repository {} but the blob hash of the canonical document is {}", repo.id, expect)));
+            }
+            match Identity::get(&commit.into(), &repo) {
+                Err(e) => viol.push(("init-load-failed".into(), format!("identity of a freshly initialised repository does not load: {e}"))),
+                Ok(id) => {
+                    if id.id() != repo.id {
+                        viol.push(("rid-not-blob-hash".into(), format!("loaded identity has id {} in repository {}", id.id(), repo.id)));
+                    }
+                    let stored = RawDoc::from_json(bytes).and_then(|r| r.verified());
+                    if stored.map(|s| &s != id.doc()).unwrap_or(true) {
+                        viol.push(("stored-doc-differs".into(), "the loaded root document is not the decoding of the canonical bytes".into()));
+                    }
+                }
+            }
+            // the same root document in a repository with another id
+            let other = RepoId::from(git2::Oid::from_str(&blob_hash(b"another repository")).expect("oid"));
+            if other != expect {
+                match Repository::create(storage.path().join(other.canonical()), other, storage.info()) {
+                    Err(e) => tags.push(format!("init:foreign-create-failed:{}", e.to_string().chars().take(40).collect::<String>())),
+                    Ok(foreign) => match d.init(&foreign, signer) {
+                        // `Doc::init` evaluates the new COB, i.e. runs `Identity::from_root` itself
+                        Err(e) if e.to_string().contains("does not match identifier") => tags.push("init:foreign-id-refused".into()),
+                        Err(_) => tags.push("init:foreign-init-failed-other".into()),
+                        Ok(root) => {
+                            if Identity::get(&root.into(), &foreign).is_ok() {
+                                viol.push(("root-mismatch-accepted".into(), format!("a root document hashing to {expect} is accepted as the identity of repository {other}")));
+                            } else {
+                                tags.push("init:foreign-id-refused".into());
+                            }
+                        }
+                    },
+                }
+            }
+        }
+    }
+}
+
+// ---------------------------------------------------------------------------------------------
+// Generation
+
+const STRS: &[&str] = &[
+    "", "a", "b", "name", "heartwood", "description", "xyz.radicle.project", "defaultBranch", "master",
+    "e\u{301}", "\u{e9}", "A\u{30a}", "\u{212b}", "\u{c5}", "\u{1100}\u{1161}", "\u{ac00}", "\u{fb01}", "\u{2126}",
+    "\u{0}", "\n", "\t\"q\"\\", "a b", "a!", "\u{1}x", "\u{7f}", "\u{80}", "\u{1f600}", "e\n\u{301}", "\u{301}",
+    "q\u{307}\u{323}", "q\u{323}\u{307}", "\u{1e0b}\u{323}", "x\u{1f}e\u{301}y\"e\u{301}", "type", "public", "did:key:z6Mk", "1",
+];
+
+fn gen_string(rng: &mut Rng) -> String {
+    match rng.below(10) {
+        0..=5 => rng.pick(STRS).to_string(),
+        6..=7 => format!("{}{}", rng.pick(STRS), rng.pick(STRS)),
+        8 => (0..rng.below(6)).map(|_| (b'a' + rng.below(26) as u8) as char).collect(),
+        _ => format!("{}.{}", rng.pick(STRS), rng.below(100)),
+    }
+}
+
+fn gen_int(rng: &mut Rng) -> i128 {
+    match rng.below(12) {
+        0 => 0,
+        1 => 1,
+        2 => -1,
+        3 => i64::MIN as i128,
+        4 => i64::MAX as i128,
+        5 => u64::MAX as i128,
+        6 => i64::MAX as i128 + 1,
+        7 => u32::MAX as i128,
+        8 => -(rng.below(1000) as i128),
+        _ => rng.below(1000) as i128,
+    }
+}
+
+fn gen_value(rng: &mut Rng, depth: u32) -> J {
+    let top = if depth >= 3 { 8 } else { 12 };
+    match rng.below(top) {
+        0 => J::Null,
+        1 => J::Bool(rng.bool()),
+        2 | 3 => J::Int(gen_int(rng)),
+        4 => {
+            if rng.chance(1, 3) {
+                J::Float(rng.below(FLOATS.len() as u64) as u32)
+            } else {
+                J::Int(gen_int(rng))
+            }
+        }
+        5..=7 => J::Str(gen_string(rng)),
+        8 | 9 => J::Arr((0..rng.below(4)).map(|_| gen_value(rng, depth + 1)).collect()),
+        _ => {
+            let mut kvs: Vec<(String, J)> = (0..rng.below(4)).map(|_| (gen_string(rng), gen_value(rng, depth + 1))).collect();
+            if !kvs.is_empty() && rng.chance(1, 8) {
+                let k = kvs[0].0.clone();
+                kvs.push((k, gen_value(rng, depth + 1)));
+            }
+            J::Obj(kvs)
+        }
+    }
+}
+
+fn gen_payload(rng: &mut Rng) -> J {
+    let n = match rng.below(10) {
+        0 => 0,
+        1..=6 => 1,
+        7 | 8 => 2,
+        _ => 3,
+    };
+    let mut kvs = vec![];
+    for i in 0..n {
+        let key = if i == 0 && rng.chance(3, 4) { "xyz.radicle.project".to_string() } else { gen_string(rng) };
+        let val = if rng.chance(3, 5) {
+            let s = |rng: &mut Rng| if rng.chance(4, 5) { J::Str(rng.pick(&["heartwood", "master", "", "a b", "Radicle Heartwood Protocol & Stack"]).to_string()) } else { J::Str(gen_string(rng)) };
+            J::Obj(vec![("name".into(), s(rng)), ("description".into(), s(rng)), ("defaultBranch".into(), s(rng))])
+        } else {
+            gen_value(rng, 1)
+        };
+        kvs.push((key, val));
+    }
+    J::Obj(kvs)
+}
+
+/// Delegate index list: `distinct` distinct keys with some duplicates mixed in.
+fn gen_delegates(rng: &mut Rng, big: bool) -> Vec<u64> {
+    let distinct = if big {
+        *rng.pick(&[254u64, 255, 255, 256, 256, 257])
+    } else {
+        match rng.below(40) {
+            0 => 0,
+            1..=14 => 1,
+            15..=22 => 2,
+            23..=30 => 3,
+            31..=37 => rng.range(4, 9),
+            _ => rng.range(10, 60),
+        }
+    };
+    let start = rng.below(POOL as u64 - distinct.max(1) + 1);
+    let mut ds: Vec<u64> = (start..start + distinct).collect();
+    // shuffle
+    for i in (1..ds.len()).rev() {
+        let j = rng.below(i as u64 + 1) as usize;
+        ds.swap(i, j);
+    }
+    if !ds.is_empty() && rng.chance(2, 5) {
+        for _ in 0..rng.range(1, 3) {
+            let d = ds[rng.below(ds.len() as u64) as usize];
+            let at = rng.below(ds.len() as u64 + 1) as usize;
+            ds.insert(at, d);
+        }
+    }
+    ds
+}
+
+fn gen_threshold(rng: &mut Rng, raw: &[u64]) -> i128 {
+    let n = raw.iter().collect::<BTreeSet<_>>().len() as i128;
+    let m = raw.len() as i128;
+    match rng.below(40) {
+        0 => 0,
+        1..=12 => 1,
+        13..=19 => n,
+        20 | 21 => n + 1,
+        22 => m,
+        23 => m + 1,
+        24 | 25 => (n - 1).max(0),
+        26 => *rng.pick(&[255i128, 256, 300, 254]),
+        27 => rng.below(301) as i128,
+        28..=31 => (n / 2 + 1).min(n.max(1)),
+        _ => rng.range(1, n.max(1) as u64) as i128,
+    }
+}
+
+fn did_j(i: u64) -> J {
+    J::Str(pool().dids[i as usize].to_string())
+}
+
+fn gen_visibility(rng: &mut Rng) -> Option<J> {
+    let allow = |rng: &mut Rng| -> J {
+        let mut xs: Vec<J> = (0..rng.below(4)).map(|_| did_j(rng.below(12))).collect();
+        if rng.chance(1, 25) {
+            xs.push(J::Str("did:key:nope".into()));
+        }
+        J::Arr(xs)
+    };
+    match rng.below(40) {
+        24..=31 => None,
+        32..=34 => Some(J::Obj(vec![("type".into(), J::Str("public".into()))])),
+        35..=39 => Some(J::Obj(vec![("type".into(), J::Str("private".into())), ("allow".into(), allow(rng))])),
+        0..=9 => None,
+        10 | 11 => Some(J::Obj(vec![("type".into(), J::Str("public".into()))])),
+        12..=15 => Some(J::Obj(vec![("type".into(), J::Str("private".into())), ("allow".into(), allow(rng))])),
+        16 => Some(J::Obj(vec![("allow".into(), allow(rng)), ("type".into(), J::Str("private".into()))])),
+        17 => Some(J::Obj(vec![("type".into(), J::Str("private".into()))])),
+        18 => Some(J::Obj(vec![("type".into(), J::Str("public".into())), ("allow".into(), allow(rng)), ("x".into(), J::Int(1))])),
+        19 => Some(J::Obj(vec![("type".into(), J::Int(rng.below(3) as i128)), ("allow".into(), allow(rng))])),
+        20 => Some(J::Arr(match rng.below(4) {
+            0 => vec![J::Str("public".into())],
+            1 => vec![J::Str("private".into())],
+            2 => vec![J::Str("private".into()), allow(rng)],
+            _ => vec![J::Str("public".into()), J::Int(1)],
+        })),
+        21 => Some(J::Obj(vec![("type".into(), J::Str("private".into())), ("allow".into(), allow(rng)), ("allow".into(), allow(rng))])),
+        22 => Some(J::Obj(vec![("type".into(), J::Str("private".into())), ("type".into(), J::Str("public".into()))])),
+        _ => Some(rng.pick(&[J::Null, J::Str("public".into()), J::Obj(vec![]), J::Obj(vec![("type".into(), J::Str("Private".into()))]), J::Obj(vec![("allow".into(), J::Arr(vec![]))])]).clone()),
+    }
+}
+
+fn format_case(kind_args: &str, tree: &J, extra_dids: &[u64]) -> String {
+    // did table: every pool DID string occurring in the tree, plus the extra indices
+    let p = pool();
+    let mut ss = vec![];
+    strings_of(tree, &mut ss);
+    let by_str: HashMap<String, u64> = p.dids.iter().enumerate().map(|(i, d)| (d.to_string(), i as u64)).collect();
+    let mut used: BTreeSet<u64> = extra_dids.iter().copied().collect();
+    for s in ss {
+        if let Some(i) = by_str.get(s) {
+            used.insert(*i);
+        }
+    }
+    let dt = if used.is_empty() {
+        "-".to_string()
+    } else {
+        used.iter().map(|i| format!("{i}:{}", hexs(&p.dids[*i as usize].to_string()))).collect::<Vec<_>>().join(",")
+    };
+    let rev: HashMap<String, u64> = used.iter().map(|i| (p.dids[*i as usize].to_string(), *i)).collect();
+    let nt = nfc_table(tree);
+    let nt = if nt.is_empty() { "-".to_string() } else { nt.iter().map(|(a, b)| format!("{}>{}", hexs(a), hexs(b))).collect::<Vec<_>>().join(",") };
+    let mut w = String::new();
+    wire(tree, &rev, &mut w);
+    format!("{dt} {nt} {kind_args} {w}")
+}
+
+fn gen_case(rng: &mut Rng, big_den: u64) -> String {
+    let big = rng.chance(1, big_den);
+    let dels = gen_delegates(rng, big);
+    let thr = gen_threshold(rng, &dels);
+    if rng.chance(1, 4) {
+        // RawDoc through the API
+        let vis = if rng.chance(2, 3) {
+            "P".to_string()
+        } else {
+            let a: Vec<u64> = (0..rng.below(4)).map(|_| rng.below(12)).collect();
+            format!("V{}", nats(&a))
+        };
+        let allow: Vec<u64> = if let Some(a) = vis.strip_prefix('V') { nat_list(a).unwrap() } else { vec![] };
+        let payload = gen_payload(rng);
+        let mut extra = dels.clone();
+        extra.extend(allow);
+        return format_case(&format!("raw {} {} {}", nats(&dels), thr.max(0), vis), &payload, &extra);
+    }
+    // JSON document
+    let mut del_elems: Vec<J> = dels.iter().map(|i| did_j(*i)).collect();
+    if rng.chance(1, 30) {
+        let bad = rng.pick(&[J::Str("did:key:z6MkBogus".into()), J::Str("foo".into()), J::Int(1), J::Null]).clone();
+        let at = rng.below(del_elems.len() as u64 + 1) as usize;
+        del_elems.insert(at, bad);
+    }
+    let delegates = if rng.chance(1, 60) { did_j(0) } else { J::Arr(del_elems) };
+    let threshold = match rng.below(100) {
+        0 => J::Float(rng.below(FLOATS.len() as u64) as u32),
+        1 => J::Str(thr.to_string()),
+        2 => J::Int(-thr - 1),
+        3 => J::Int(*rng.pick(&[u64::MAX as i128, i64::MAX as i128 + 1, u32::MAX as i128 + 1])),
+        _ => J::Int(thr),
+    };
+    let payload = if rng.chance(1, 50) { rng.pick(&[J::Arr(vec![]), J::Null, J::Str("x".into())]).clone() } else { gen_payload(rng) };
+    let version: Option<J> = match rng.below(80) {
+        0..=47 => None,
+        48..=71 => Some(J::Int(1)),
+        72 => Some(J::Int(1)),
+        73 => Some(J::Int(0)),
+        74 => Some(J::Int(2)),
+        75 => Some(J::Int(*rng.pick(&[3i128, u32::MAX as i128, u32::MAX as i128 + 1, -1]))),
+        76 => Some(J::Float(4)),
+        77 => Some(J::Str("1".into())),
+        78 => Some(J::Null),
+        _ => Some(J::Int(rng.below(4) as i128)),
+    };
+    let visibility = gen_visibility(rng);
+    if rng.chance(1, 30) {
+        // sequence form of the struct
+        let mut xs = vec![version.unwrap_or(J::Int(1)), payload, delegates, threshold];
+        if let Some(v) = visibility {
+            xs.push(v);
+        }
+        match rng.below(6) {
+            0 => {
+                xs.pop();
+            }
+            1 => xs.push(J::Null),
+            _ => {}
+        }
+        return format_case("json", &J::Arr(xs), &[]);
+    }
+    let mut kvs: Vec<(String, J)> = vec![];
+    if let Some(v) = version {
+        kvs.push(("version".into(), v));
+    }
+    kvs.push(("payload".into(), payload));
+    kvs.push(("delegates".into(), delegates));
+    kvs.push(("threshold".into(), threshold));
+    if let Some(v) = visibility {
+        kvs.push(("visibility".into(), v));
+    }
+    // unknown fields
+    if rng.chance(1, 5) {
+        for _ in 0..rng.range(1, 2) {
+            kvs.push((rng.pick(&["x", "Version", "delegate", "thresholds", "", "payloads"]).to_string(), gen_value(rng, 2)));
+        }
+    }
+    // duplicate a member (known or unknown field)
+    if rng.chance(1, 30) {
+        let kv = kvs[rng.below(kvs.len() as u64) as usize].clone();
+        kvs.push(kv);
+    }
+    // drop a member
+    if rng.chance(1, 30) {
+        let at = rng.below(kvs.len() as u64) as usize;
+        kvs.remove(at);
+    }
+    // member order is irrelevant to serde: shuffle
+    for i in (1..kvs.len()).rev() {
+        let j = rng.below(i as u64 + 1) as usize;
+        kvs.swap(i, j);
+    }
+    let doc = if rng.chance(1, 100) { rng.pick(&[J::Null, J::Str("doc".into()), J::Int(1), J::Arr(vec![])]).clone() } else { J::Obj(kvs) };
+    format_case("json", &doc, &[])
+}
+
+fn main() {
+    if std::env::var("C19_DUMP_POOL").is_ok() {
+        // helper for writing corpus files by hand: the DID strings of the key pool
+        for (i, d) in pool().dids.iter().enumerate() {
+            println!("{i} {}", hexs(&d.to_string()));
+        }
+        return;
+    }
+    let mut ctx = Ctx::from_args("C19");
+    // the corpus / replay always exercises Repository::init
+    INIT_EVERY.store(1, Ordering::Relaxed);
+    let replay = ctx.run_fixed(run_case);
+    if !replay {
+        INIT_EVERY.store(ctx.size(25, 150), Ordering::Relaxed);
+        let mut rng = ctx.rng();
+        let big_den = ctx.size(30, 300);
+        let n = ctx.size(3_000, 200_000);
+        for _ in 0..n {
+            let input = gen_case(&mut rng, big_den);
+            let o = run_case(&input);
+            ctx.record(&input, o);
+        }
+    }
+    ctx.finish(
+        "random identity documents as JSON (map and sequence form; 0..9 and 254..257 distinct delegates with duplicates mixed in; \
+         thresholds 0..300 around 1, the distinct count and the raw count; versions absent/0/1/2/out of range/ill-typed; payloads with \
+         arbitrary nested JSON incl. non-NFC strings, control characters, floats, 64-bit bounds, duplicate keys; all serde shapes of \
+         visibility; unknown, duplicated and missing members) and RawDocs built through the Rust API; every accepted document is also \
+         encoded, decoded again and, on a subset, used to initialise a real repository; non-trivial = accepted, or rejected by \
+         RawDoc::verified (delegates/threshold) rather than by the JSON layer; distinct by input text",
+        false,
+    );
 }
